@@ -37,6 +37,7 @@ class Ctx:
     def __init__(self, prop, tier, scratch, jobs, seed):
         self.prop, self.tier, self.scratch, self.jobs, self.seed = prop, tier, scratch, jobs, seed
         self.lock = threading.Lock()
+        self.t0, self.measure = time.time(), False
         self.driver_locks = {}
         self.drivers = {}
 
@@ -124,9 +125,29 @@ def release_memory(got_gb):
         _mem_cv.notify_all()
 
 
+def quick_deadline(ctx):
+    """Quick tier only: the whole command must answer within the budget its caller gives it (900 s in `vp check`).  On
+    the unchanged tree every quick check ends in 40-500 s; a change to /repo can make harnesses slower, and a check that
+    is killed from outside can no longer print the violation another harness has already found.  So the quick tier has a
+    wall deadline (VERIF_QUICK_DEADLINE, default 840 s after start, 0 = none): harnesses still running then are stopped
+    and reported inconclusive, harnesses not started are reported inconclusive - never as a pass."""
+    if ctx.tier != "quick" or getattr(ctx, "measure", False):
+        return None
+    d = int(os.environ.get("VERIF_QUICK_DEADLINE", "840"))
+    return ctx.t0 + d if d > 0 else None
+
+
 def run_harness(ctx, grp, h):
-    got = reserve_memory(harness_need_gb(h))
+    dl = quick_deadline(ctx)
+    def late():
+        return {"harness": f"{grp['id']}/{h['_mod']}::{h['name']}", "variant": grp["id"], "verdict": "INCONCLUSIVE", "tier": h["tier"],
+                "reason": "not started before the quick tier's wall deadline", "symbolic_bits": h["bits"], "desc": h.get("desc", ""), "wall_s": 0}
+    if dl and time.time() > dl - 10:
+        return late()
+    got = reserve_memory(harness_need_gb(h), max_wait_s=(max(1, dl - 10 - time.time()) if dl else 3600))
     try:
+        if dl and time.time() > dl - 10:
+            return late()
         return run_harness_inner(ctx, grp, h)
     finally:
         release_memory(got)
@@ -140,6 +161,9 @@ def run_harness_inner(ctx, grp, h):
     tdir = os.path.join(ctx.scratch, "t_" + hashlib.sha1((grp["id"] + short).encode()).hexdigest()[:12])
     logp = os.path.join(ctx.scratch, f"log_{grp['id']}_{modname.replace('::', '.')}_{h['name']}.txt")
     cap = int(h.get("cap", plan.CAPS[ctx.tier]))
+    dl = quick_deadline(ctx)
+    if dl:
+        cap = int(max(5, min(cap, dl - time.time())))
     mem = float(h.get("mem", plan.MEM_GB[ctx.tier]))
     cmd = ["/usr/bin/time", "-f", "VERIF_RSS_KB %M", "cargo", "kani", "--harness", full, "--exact",
            "-Z", "concrete-playback", "--concrete-playback=print", "--no-assertion-reach-checks", "--target-dir", tdir]
@@ -318,7 +342,32 @@ def main():
     signal.signal(signal.SIGTERM, on_sig)
     signal.signal(signal.SIGINT, on_sig)
     ctx = Ctx(prop, a.tier, scratch, a.jobs, seed)
+    ctx.t0, ctx.measure = t0, a.measure_thorough
     records, engine_errors, transforms = [], [], {}
+    known = load_known()
+    violations, known_hits, inconclusive = [], [], []
+    os.makedirs(os.path.join(VERIF, "replay"), exist_ok=True)
+
+    def classify(rec):
+        # called as soon as a harness has answered: a reproduced counterexample is written to /verif/replay and its
+        # VIOLATION line printed at once, so that it is on the output even if the command is stopped from outside later
+        if rec["verdict"] == "VIOLATION":
+            hit = [f for f in known["findings"] if finding_matches(f, prop, rec)]
+            if hit:
+                rec["known_finding"] = hit[0].get("id")
+                known_hits.append((rec, hit[0]))
+                print(f"KNOWN-FINDING: property={prop} {hit[0].get('what', rec['harness'])}", flush=True)
+            else:
+                n = len(violations) + 1
+                rp = os.path.join(VERIF, "replay", f"{prop}-{n}.json")
+                vn = rec["variant"]
+                json.dump({"property": prop, "harness": rec["harness"], "variant": vn, "variant_name": rec.get("_vname"), "harness_files": rec.get("_files"), "input_hex": rec["counterexample_hex"],
+                           "failed_checks": rec.get("failed_checks"), "native_replay": rec.get("native_replay"), "desc": rec["desc"]}, open(rp, "w"), indent=1)
+                rec["replay_file"] = rp
+                violations.append(rec)
+                print(f"VIOLATION property={prop} replay={rp}", flush=True)
+        elif rec["verdict"] == "INCONCLUSIVE":
+            inconclusive.append(rec)
     if prop == "C15":
         found, allowed = global_state_listing()
         transforms["global_state_listing"] = {"covered_by_harness": allowed, "uncovered": found}
@@ -420,32 +469,10 @@ def main():
                 except Exception as e:  # engine failure
                     rec = {"harness": f"{g['id']}/{h['_mod']}::{h['name']}", "verdict": "INCONCLUSIVE", "reason": f"engine exception {e!r}", "symbolic_bits": h["bits"], "desc": h.get("desc", "")}
                 records.append(rec)
+                classify(rec)
                 print(f"[{rec['verdict']:12}] {rec['harness']:60} {rec.get('wall_s', 0):7.1f}s {rec.get('reason', '')[:160]}", flush=True)
     finally:
         pass
-    known = load_known()
-    violations, known_hits, inconclusive = [], [], []
-    os.makedirs(os.path.join(VERIF, "replay"), exist_ok=True)
-    for rec in records:
-        if rec["verdict"] == "VIOLATION":
-            hit = [f for f in known["findings"] if finding_matches(f, prop, rec)]
-            if hit:
-                rec["known_finding"] = hit[0].get("id")
-                known_hits.append((rec, hit[0]))
-            else:
-                n = len(violations) + 1
-                rp = os.path.join(VERIF, "replay", f"{prop}-{n}.json")
-                vn = rec["variant"]
-                json.dump({"property": prop, "harness": rec["harness"], "variant": vn, "variant_name": rec.get("_vname"), "harness_files": rec.get("_files"), "input_hex": rec["counterexample_hex"],
-                           "failed_checks": rec.get("failed_checks"), "native_replay": rec.get("native_replay"), "desc": rec["desc"]}, open(rp, "w"), indent=1)
-                rec["replay_file"] = rp
-                violations.append(rec)
-        elif rec["verdict"] == "INCONCLUSIVE":
-            inconclusive.append(rec)
-    for rec, f in known_hits:
-        print(f"KNOWN-FINDING: property={prop} {f.get('what', rec['harness'])}")
-    for rec in violations:
-        print(f"VIOLATION property={prop} replay={rec['replay_file']}")
     for e in engine_errors:
         print(f"ENGINE-ERROR {e}")
     for rec in inconclusive:
